@@ -43,7 +43,7 @@ PROPS["C16"] = dict(
 LEVEL_TEXT["C16"] = "Exhaustive enumeration of graph set-ups over a dense grid of key counts (every small n, every regime boundary, geometric grid to 10^12) times a cross product of extreme signature words, checking the six arithmetic relations of the property on each; the edge computation is pure integer arithmetic whose only branches depend on n-regime and on field extremes, which the grids hit."
 TECHNIQUE["C16"] = "bounded-exhaustive enumeration of configurations x boundary-value signature grid against the arithmetic specification"
 
-MC_NOTE = "E2: each transition applies the operation to the real object (rebuilt from the state's raw parts) and to the model; so every model transition is validated against the implementation and traces_validated_against_impl = transitions. States are deduplicated per BFS unit (seed x first operation) on (backing words incl. stale bits, len, width); 'states' sums the per-unit distinct states."
+MC_NOTE = "E2: each transition applies the operation to the real object (rebuilt from the state's raw parts) and to the model; so every model transition is validated against the implementation and traces_validated_against_impl = transitions. States are deduplicated per BFS unit (seed x first operation) on (backing words incl. stale bits, len, width, capacity of the backing Vec); 'states' sums the per-unit distinct states."
 
 PROPS["C06"] = dict(
     level="model_checking",
@@ -65,12 +65,13 @@ PROPS["C14"] = dict(
     parts=[dict(bin="e2_bitvec", opts={"prop": "C14", "depth": 3}, tag="dirty-q", tiers=["quick"]),
            dict(bin="e2_bitvec", opts={"prop": "C14", "depth": 5}, tag="dirty-t", tiers=["thorough"]),
            dict(bin="e2_bfv", opts={"prop": "C14", "depth": 3}, tag="dirty-q", tiers=["quick"]),
-           dict(bin="e2_bfv", opts={"prop": "C14", "depth": 4}, tag="dirty-t", tiers=["thorough"]),
+           dict(bin="e2_bfv", opts={"prop": "C14", "depth": 4, "words": "u8,usize"}, tag="dirty-t", tiers=["thorough"]),
+           dict(bin="e2_bfv", opts={"prop": "C14", "depth": 3, "words": "u16,u32,u64,u128"}, tag="dirty-t-other-words", tiers=["thorough"]),
            # copy into dirty storage, chunked writes and apply_in_place on dirty backends (the C10 engine, relabelled)
            dict(bin="e1_bulk", opts={"relabel": "C10:C14"}, tag="bulk-writers")],
     rule="BFS over operation histories from dirty from_raw_parts seeds (garbage beyond len: all ones / alternating / single 1 right after the last valid bit / garbage only in spare words; 0-2 spare words); unit = (seed, first operation)",
     alphabet="same operation alphabet as C06/C05, started from dirty storage",
-    bound={"quick": "all histories of <= 3 operations from every dirty seed", "thorough": "all histories of <= 5 operations"},
+    bound={"quick": "all histories of <= 3 operations from every dirty seed", "thorough": "bit vectors: all histories of <= 5 operations; bit-field vectors: <= 4 operations for u8 and usize (every width class), <= 3 for u16/u32/u64/u128"},
     oracle="readers: every observation of C06/C05 equals the clean model in every state; writers: on every transition the raw words before/after differ only inside the elements the operation is documented to write (growth: the new elements; shrink: the discarded elements); the bulk writers (copy into a destination with a dirty tail and spare word, chunked writes, apply_in_place) are enumerated by the C10 engine with the same raw-word footprint check",
     assumptions=STRICT,
     mc_note=MC_NOTE,
@@ -128,7 +129,7 @@ PROPS["C03"] = dict(
     parts=[dict(bin="e1_ef", opts={"prop": "C03"})],
     rule=EF_RULE + "; plus every invalid push (out of order, above u, (n+1)-th) after every prefix of every sequence with n <= 3",
     alphabet="builders push / extend / From<slice> / concurrent set in every permutation of indices (n<=4); back-ends plain, EfSeq, EfDict, EfSeqDict, SelectZeroAdapt(SelectAdapt), SelectZeroAdaptConst<2,1>(SelectAdaptConst<2,1>), SelectZeroAdapt(Select9(Rank9)), SelectZeroSmall(SelectSmall(RankSmall<1,9>))",
-    bound={"quick": "N=6, M=14, 4-6 values of u; n<=12 in (b); every delivery of an invalid value (push, one-element extend, extend with the valid rest) after every delivery of the valid prefix, all non-monotone slices of <= 4 values over 5 values given to From", "thorough": "N=8, M=16, 6 values of u; n<=40 in (b); all run lengths 1..=200 in (d)"},
+    bound={"quick": "N=6, M=14, 4-6 values of u; n<=12 in (b); every delivery of an invalid value (push, one-element extend, extend with the valid rest) after every delivery of the valid prefix, all non-monotone slices of <= 4 values over 5 values given to From", "thorough": "N=9, M=17, 6 values of u; n<=40 in (b); all run lengths 1..=200 in (d)"},
     oracle="the sequence itself: len, get(i) all i, iter/into_iter with exact len() before every next, iter_from(k)/into_iter_from(k) for every k in 0..=n; an invalid push panics and the builder continues as if it had not happened",
     assumptions=STRICT,
 )
@@ -190,7 +191,7 @@ PROPS["C20"] = dict(
     level="exploration",
     engine="E1",
     parts=[dict(bin="e1_lenders")],
-    rule="case = (lender kind: LineLender over Cursor / File, Zstd- and GzipLineLender over Cursor / File (opened by path and from an open File), Take(n) or none, input text); inside each case ALL histories of <= 3 rounds (consume c items, rewind), c in {0,1,L-1,L,L+1 (reads past the end)}, followed by a full pass; texts: ALL texts of <= 3 (thorough 4) lines over {\"\", a, bc, a 9000-byte line (> BufReader capacity), d+CR, a lone CR} x {LF, CRLF} x final terminator present/absent; one 4000-line ~300 KiB text for multi-block compressed streams; streams of 2-3 concatenated zstd frames / gzip members over 6 pieces (including empty ones) and two of 150 KiB each, with the first pass of a fresh lender as reference; FromIntoIterator over ranges and Vec<String> of 0..=4 items; Take(n) for n in {0,1,L-1,L,L+1}; non-trivial = at least 2 items",
+    rule="case = (lender kind: LineLender over Cursor / File, Zstd- and GzipLineLender over Cursor / File (opened by path and from an open File), Take(n) or none, input text); inside each case ALL histories of <= 3 rounds (consume c items, rewind), c in {0,1,L-1,L,L+1 (reads past the end)}, followed by a full pass; texts: ALL texts of <= 3 (thorough 4) lines over {\"\", a, bc, a 9000-byte line (> BufReader capacity), d+CR, a lone CR} x {LF, CRLF} x final terminator present/absent; texts with one very long line (8191..65537, 70000, 131073 bytes; thorough 1 MiB; ASCII and two-byte characters); one 4000-line ~300 KiB text for multi-block compressed streams; streams of 2-3 concatenated zstd frames / gzip members over 6 pieces (including empty ones) and two of 150 KiB each, with the first pass of a fresh lender as reference; FromIntoIterator over ranges and Vec<String> of 0..=4 items; Take(n) for n in {0,1,L-1,L,L+1}; non-trivial = at least 2 items",
     alphabet="LineLender over Cursor and over a real file, ZstdLineLender, GzipLineLender, FromIntoIterator, lender::Take of each",
     bound={"quick": "texts of <= 3 lines, 3 rounds", "thorough": "texts of <= 4 lines, 3 rounds"},
     oracle="after every history a full pass yields exactly the reference lines (reference splitter applied to the text itself: split on LF, one CR immediately before the LF removed, final unterminated non-empty piece kept as is - a lone CR is not a terminator), each Ok; items consumed before a rewind are also compared",
@@ -262,7 +263,7 @@ PROPS["C11"] = dict(
     parts=[dict(bin="e1_space", timeout_s={"quick": 900, "thorough": 7200})],
     rule="rank/select: EVERY len in 0..=L and every power of two +-1 up to 2^26 x densities {ones, zeros, one per 512, alternating}; bit vectors and bit-field vectors built or grown only: every len 0..=300 x 9 widths x {new, new_unaligned, push, resize} and collect / extend from iterators with exact, too-large and unknown size hints (filter, take_while, flat_map, chain); Elias-Fano (plain build): ALL (n,u) with n in 0..=64, u in 0..=U plus the split probes n 2^k +-1 and 2^63, MAX; functions/filters: arithmetic num_vertices x num_shards of every ShardEdge for EVERY n <= N then a 1% geometric grid to 10^12 with the largest admissible shard floor(1.01 n / shards), real builds of functions and filters at regime boundaries for 4 value widths, and real builds of functions of EVERY value width (1..=BITS of usize, u16, u8; 7 widths of u32, 6 of u64) on bit-field and boxed backends at 1000 and 100 000 keys; non-trivial = non-empty structure",
     alphabet="additive constants fixed in DESIGN.md section 5 (C11): rank structures and Select9 + 1024 bits; Elias-Fano + 1152 bits; functions 2 segments per shard (MWHC: 3 x 128 cells per shard) + 8 cells; 1.135 applies to the default sharded logic from 100000 keys",
-    bound={"quick": "L=5000, U=600, N=60000", "thorough": "L=70000, U=4096, N=10^6"},
+    bound={"quick": "L=5000, U=600, N=60000", "thorough": "L=200000, U=4096, N=4 10^6"},
     oracle="mem_size(SizeFlags::default()) of the structure minus that of the wrapped structure <= documented fraction of the bit length + constant; closed formulas from the property text",
     assumptions=STRICT + ["mem_size as reported by mem_dbg is the measure named by the property"],
 )
